@@ -1402,6 +1402,11 @@ def slide(
                         action_event = action.stop_event({})
                         action.status = ActionStatus.STOPPING
                         _generate_umim_event(state, action_event)
+                    elif action_uid in flow_state.action_uids:
+                        # The action is shared with another flow that still uses it. This
+                        # flow gave up its share with the end of the scope and must not
+                        # release it a second time when the flow itself ends.
+                        flow_state.action_uids.remove(action_uid)
 
             # Remove scope from all heads
             for h in flow_state.heads.values():
